@@ -228,7 +228,7 @@ PROPS = {
                         "the parser model equals the Go parser (C07's correspondence, re-exercised here through c08format)"],
     },
     "C10": {
-        "lean": ["Knut.Properties.C10"],
+        "lean": ["Knut.Properties.C10", "Knut.FactsAgree.TransDate"],
         "level": "proof",
         "claim": "Lean theorems over the model of transaction.Create/expand (lib/model/transaction/transaction.go) with posting.Builder.Build, date.NewPartition (the C11 model, last = 0) "
                  "and Decimal.QuoRem(n, 1), for any number of bookings, all five account types, any quantities, every interval and every window with start <= end: every generated "
@@ -255,7 +255,7 @@ PROPS = {
                         "date.NewPartition behaves as the C11 model (established by C11's exhaustive correspondence)"],
     },
     "C11": {
-        "lean": ["Knut.Properties.C11", "Knut.Properties.C11Monitor"],
+        "lean": ["Knut.Properties.C11", "Knut.Properties.C11Monitor", "Knut.FactsAgree.TransDate"],
         "level": "proof",
         "claim": "Lean theorems for all windows, all six intervals and all --last values over the model of lib/common/date: periods are consecutive, "
                  "cover the window exactly, are pairwise disjoint, lie within one calendar unit, start at the window start or a unit start, --last n keeps the n "
